@@ -70,7 +70,8 @@ Section Types.
     c_vtag : list N; c_vname : list N;
     c_tval : list F; c_tol : list F; c_tw : list F; c_ttag : list N;
     c_nmax : nat; c_assert : bool; c_restore : bool;
-    c_check : bool }.                   (* Optimize(check_limits=...) *)
+    c_check : bool;                     (* Optimize(check_limits=...) *)
+    c_tlog : list bool }.               (* Target(optimize_log=...); missing entries = False *)
 
   Record row := mkRow {
     r_knobs : list F; r_va : list bool; r_ta : list bool; r_pen : F;
@@ -106,6 +107,8 @@ Section Types.
   Definition set_sx s v m := mkState (knobs s) (va s) (ta s) v m (lpwt s) (lres s) (ltw s) (pen_after s) (alpha_last s) (bro s) (log s) (ncall s).
   Definition set_mfl s m := mkState (knobs s) (va s) (ta s) (sx s) m (lpwt s) (lres s) (ltw s) (pen_after s) (alpha_last s) (bro s) (log s) (ncall s).
   Definition set_eval s ok r w := mkState (knobs s) (va s) (ta s) (sx s) (mfl s) ok r w (pen_after s) (alpha_last s) (bro s) (log s) (S (ncall s)).
+  (* the call raised after the flags were stored: call_counter is not incremented *)
+  Definition set_eval0 s ok r w := mkState (knobs s) (va s) (ta s) (sx s) (mfl s) ok r w (pen_after s) (alpha_last s) (bro s) (log s) (ncall s).
   Definition set_pen s p := mkState (knobs s) (va s) (ta s) (sx s) (mfl s) (lpwt s) (lres s) (ltw s) p (alpha_last s) (bro s) (log s) (ncall s).
   Definition set_alpha s a := mkState (knobs s) (va s) (ta s) (sx s) (mfl s) (lpwt s) (lres s) (ltw s) (pen_after s) a (bro s) (log s) (ncall s).
   Definition set_bro s b := mkState (knobs s) (va s) (ta s) (sx s) (mfl s) (lpwt s) (lres s) (ltw s) (pen_after s) (alpha_last s) b (log s) (ncall s).
@@ -118,14 +121,14 @@ Arguments bind {F A B}.
 Arguments mkRow {F}. Arguments mkCfg {F}. Arguments mkState {F}.
 Arguments c_w {F}. Arguments c_lim {F}. Arguments c_step {F}. Arguments c_maxstep {F}. Arguments c_vtag {F}.
 Arguments c_vname {F}. Arguments c_tval {F}. Arguments c_tol {F}. Arguments c_tw {F}. Arguments c_ttag {F}.
-Arguments c_nmax {F}. Arguments c_assert {F}. Arguments c_restore {F}. Arguments c_check {F}.
+Arguments c_nmax {F}. Arguments c_assert {F}. Arguments c_restore {F}. Arguments c_check {F}. Arguments c_tlog {F}.
 Arguments r_knobs {F}. Arguments r_va {F}. Arguments r_ta {F}. Arguments r_pen {F}. Arguments r_targets {F}.
 Arguments r_tolmet {F}. Arguments r_hit {F}. Arguments r_alpha {F}. Arguments r_tag {F}.
 Arguments knobs {F}. Arguments va {F}. Arguments ta {F}. Arguments sx {F}. Arguments mfl {F}. Arguments lpwt {F}.
 Arguments lres {F}. Arguments ltw {F}. Arguments pen_after {F}. Arguments alpha_last {F}. Arguments bro {F}.
 Arguments log {F}. Arguments ncall {F}.
 Arguments set_knobs {F}. Arguments set_va {F}. Arguments set_ta {F}. Arguments set_sx {F}. Arguments set_mfl {F}.
-Arguments set_eval {F}. Arguments set_pen {F}. Arguments set_alpha {F}. Arguments set_bro {F}. Arguments set_log {F}.
+Arguments set_eval {F}. Arguments set_eval0 {F}. Arguments set_pen {F}. Arguments set_alpha {F}. Arguments set_bro {F}. Arguments set_log {F}.
 
 (* carrier, element-wise operations, constants and oracles *)
 Record env := mkEnv {
@@ -140,7 +143,8 @@ Record env := mkEnv {
   e_f : list eF -> option (list eF);
   e_pen : list eF -> eF;
   e_newton : list (list eF) -> list eF -> option (list eF);
-  e_broyden : list (list eF) -> list eF -> list eF -> list eF -> list eF -> list (list eF) }.
+  e_broyden : list (list eF) -> list eF -> list eF -> list eF -> list eF -> list (list eF);
+  e_log10 : eF -> eF }.                  (* numpy.log10 (libm, not an IEEE basic operation: taken from the trace) *)
 
 Section Opt.
   Variable E : env.
@@ -151,7 +155,7 @@ Section Opt.
   Notation c_tolj := (e_tolj E). Notation c_ten := (e_ten E). Notation c_hundred := (e_hundred E).
   Notation c_atol := (e_atol E). Notation c_lo := (e_lo E). Notation c_hi := (e_hi E).
   Notation f := (e_f E). Notation pen := (e_pen E). Notation newton := (e_newton E).
-  Notation broyden_upd := (e_broyden E).
+  Notation broyden_upd := (e_broyden E). Notation log10 := (e_log10 E).
   Notation state := (state F). Notation row := (row F). Notation cfg := (cfg F). Notation jacm := (jacm F).
   Notation res := (res F).
   Variable cf : cfg.
@@ -186,8 +190,25 @@ Section Opt.
   Definition all_ok (w act : list bool) : bool :=
     forallb (fun b : bool => b) (map2 (fun wi a => wi || negb a) w act).
   (* err_values[~mask_output] = 0 ; err_values[ii] *= weight *)
+  (* the residual that enters the penalty: err_values[~mask_output] = 0, then for an
+     active optimize_log target log10(res) - log10(value) replaces the linear
+     residual, then every entry is multiplied by the target's weight *)
+  Fixpoint res_pen (ev : list F) (act lg : list bool) (r tv : list F) : list F :=
+    match ev, act with
+    | e :: ev', a :: act' =>
+        (if a then (if hd false lg then sub (log10 (hd zero r)) (log10 (hd zero tv)) else e) else zero)
+        :: res_pen ev' act' (tl lg) (tl r) (tl tv)
+    | _, _ => []
+    end.
   Definition merit_out (act : list bool) (r : list F) : list F :=
-    map2 mul (map2 (fun e (a : bool) => if a then e else zero) (residual r) act) (c_tw cf).
+    map2 mul (res_pen (residual r) act (c_tlog cf) r (c_tval cf)) (c_tw cf).
+  (* "assert res_values[ii] > 0" / "assert tt.value > 0" for an active optimize_log target *)
+  Fixpoint log_bad (act lg : list bool) (r tv : list F) : bool :=
+    match act, r, tv with
+    | a :: act', ri :: r', vi :: tv' =>
+        (a && hd false lg && negb (ltb zero ri && ltb zero vi)) || log_bad act' (tl lg) r' tv'
+    | _, _, _ => false
+    end.
 
   (* MeritFunctionForMatch.__call__(x, check_limits=chk) *)
   Definition merit_call (x : list F) (chk : bool) (s : state) : res (list F * state) :=
@@ -196,7 +217,10 @@ Section Opt.
     if e then Err EValue s1 else
     match f k' with
     | None => Err EUser s1
-    | Some r => Ok (merit_out (ta s) r, set_eval s1 (all_ok (within r) (ta s)) r (within r))
+    | Some r =>
+        if log_bad (ta s) (c_tlog cf) r (c_tval cf)
+        then Err EAssert (set_eval0 s1 (all_ok (within r) (ta s)) r (within r))
+        else Ok (merit_out (ta s) r, set_eval s1 (all_ok (within r) (ta s)) r (within r))
     end.
 
   (* JacobianSolver.eval: func(x) with check_limits=None, i.e. Optimize's check_limits *)
